@@ -122,7 +122,10 @@ def get_yaml_default_dumper():
 def yaml_load(stream):
     import yaml
 
-    value = yaml.load(stream, Loader=get_yaml_default_loader())
+    try:
+        value = yaml.load(stream, Loader=get_yaml_default_loader())
+    except ValueError as ex:  # e.g. an int with more digits than sys.get_int_max_str_digits()
+        raise yaml.YAMLError(f"Problem constructing a value: {ex}") from ex
     if isinstance(value, dict) and value and all(v is None for v in value.values()):
         first_key = next(iter(value.keys()))
         if len(value) == 1 and isinstance(first_key, str) and stream.strip() == first_key + ":":
